@@ -77,7 +77,7 @@ type syncCase struct {
 	Args []string
 	Src  tm.Tree
 	Dst  tm.Tree // prior destination state
-	Form string  // "contents" (src/), "dir" (src), "file:<rel>"
+	Form string  // "contents" (src/), "dir" (src), "two", "file:<rel>", "subdir:<rel>", "subcontents:<rel>"
 	Src2 tm.Tree // optional second source root (form "two": src/ src2/)
 	Rec  bool
 	Tag  string // free-form tag that becomes a failure feature
@@ -128,6 +128,14 @@ func (sc *syncCase) run(keepData bool) (*syncResult, error) {
 		sources = []string{"src/", "src2/"}
 	case strings.HasPrefix(sc.Form, "file:"):
 		sources = []string{"src/" + strings.TrimPrefix(sc.Form, "file:")}
+	case strings.HasPrefix(sc.Form, "subdir:"):
+		// a directory below the source root, without trailing slash: lands at dest/<base>/
+		rel := strings.TrimPrefix(sc.Form, "subdir:")
+		sources = []string{"src/" + rel}
+		res.Prefix = rel[strings.LastIndex(rel, "/")+1:] + "/"
+	case strings.HasPrefix(sc.Form, "subcontents:"):
+		// the contents of a directory below the source root
+		sources = []string{"src/" + strings.TrimPrefix(sc.Form, "subcontents:") + "/"}
 	default:
 		return res, fmt.Errorf("bad form %q", sc.Form)
 	}
@@ -137,7 +145,8 @@ func (sc *syncCase) run(keepData bool) (*syncResult, error) {
 		base = filepath.Join(dir, "src")
 		sources = []string{strings.TrimPrefix(sc.Form, "file:")}
 	}
-	res.Out = drive.Run(drive.Job{Arr: sc.Arr, Args: sc.Args, Base: base, Sources: sources, Dest: dst, Record: sc.Rec})
+	sub := strings.HasPrefix(sc.Form, "sub")
+	res.Out = drive.Run(drive.Job{Arr: sc.Arr, Args: sc.Args, Base: base, Sources: sources, Dest: dst, Record: sc.Rec, SubdirPull: sub})
 	res.After, err = tm.Snapshot(dst, keepData)
 	if err != nil {
 		return res, err
